@@ -30,7 +30,7 @@ RULE = (
     'complete Cartesian products (per database: generated via the real importer, and the shipped test '
     'subset) of spatial condition x start x end x query kind; all 66 two-field and 3 three-field spatial '
     'mixes; numeric bounds x service x aircraft; every-nth x dates; limit/offset x dates; usage protocol x '
-    'kind x sample; empty filters; each query object is used at least twice. Non-trivial = a valid case '
+    'kind x sample; empty filters; assignment histories (use, assign a filter/query field, use again); each query object is used at least twice. Non-trivial = a valid case '
     'whose expected answer is non-empty, or a refusal; distinct = distinct case'
 )
 ASSUMPTIONS = [
@@ -48,7 +48,9 @@ ASSUMPTIONS = [
     'independent sampling; units seen present and absent) the case is reported as sample-unit instead of judging its size',
     'invalid scalar parameters (sample outside (0,1], every_nth<1, limit<1, offset<0, offset without limit) are '
     'only classified (refused/accepted), not judged; an illegal spatial mix must raise ValueError (class docstring)',
-    'empty lists for spatial fields and mutation of a query object after its first use are outside the space',
+    'empty lists for spatial fields are outside the space',
+    'assignment histories: after a field of a used query (or of its filter, incl. in-place list append and in-place '
+    'bounding-box edits) is assigned, the object must answer like a freshly constructed query with the same field values',
 ]
 
 F_EMPTY = 'C14-empty-filter-valueerror'
@@ -380,6 +382,69 @@ def sublattices(tier, seed):
             [_case(db, 'freq', dict(f) if f else None, a, b, limit=l) for l in fl for f in f8 for a in st for b in en],
         )
 
+        # S9 assignment histories: use, assign a field of the filter / of the query, use again
+        c1, c2 = sp['country']
+        a1, a2 = sp['airport']
+        bA, bB = sp['bounding_box']
+        d_lo, d_hi = fx['min_distance'][1], fx['max_distance'][1]
+        fmuts = [
+            ({'min_distance': d_lo}, {'filter': {'min_distance': d_hi}}),
+            ({'min_distance': d_lo}, {'filter': {'min_distance': None}}),
+            ({'max_distance': d_hi}, {'filter': {'country': c1}}),
+            ({'country': c1}, {'filter': {'country': list(c2)}}),
+            ({'country': c1}, {'filter': {'country': None, 'continent': sp['continent'][0]}}),
+            ({'airport': a1}, {'filter': {'airport': list(a2)}}),
+            ({'origin_airport': a1, 'destination_country': list(c2)}, {'filter': {'destination_country': c1}}),
+            ({}, {'filter': {'country': c1}}),
+            ({'country': c1}, {'filter': {'origin_country': c1}}),  # becomes an illegal mix
+            ({'country': c1, 'origin_country': c1}, {'filter': {'country': None}}),  # illegal mix repaired
+            ({'country': [c1]}, {'append': {'country': c2[0]}}),
+            ({'bounding_box': bA}, {'filter': {'bounding_box': list(bB)}}),
+            ({'origin_bounding_box': bA}, {'bbox_inplace': {'origin_bounding_box': list(bB)}}),
+            ({'service_type': fx['service_type'][1]}, {'filter': {'service_type': [fx['service_type'][2][0]]}}),
+            ({'max_seat_capacity': fx['max_seat_capacity'][1]}, {'filter': {'max_seat_capacity': fx['max_seat_capacity'][3]}}),
+        ]
+        cases = []
+        for (f0, m), how, (k, lim), (a, b) in itertools.product(
+            fmuts, ('newq', 'sameq', 'sqlfirst'), kinds3, ((None, None), (fx['I'], fx['I9']))
+        ):
+            c = _case(db, k, dict(f0), a, b, limit=lim, proto='assign')
+            c['mut'] = {'how': how, **{kk: dict(vv) for kk, vv in m.items()}}
+            cases.append(c)
+        qmuts = [
+            (None, {}, {'filter': {'country': c1}}),  # q.filter = Filter(...)
+            ({'country': c1}, {}, {'drop_filter': True}),  # q.filter = None
+            ({'country': c1}, {}, {'query': {'start': fx['I']}}),
+            ({'country': c1}, {'start': fx['I']}, {'query': {'start': None}}),
+            (None, {'start': fx['I'], 'end': fx['I9']}, {'query': {'end': fx['I']}}),
+            ({'min_distance': d_lo}, {}, {'query': {'start': fx['I'], 'end': fx['I9']}}),
+        ]
+        for (f0, q0, m), how, (k, lim) in itertools.product(qmuts, ('sameq', 'sqlfirst'), kinds3):
+            c = _case(db, k, dict(f0) if f0 is not None else None, q0.get('start'), q0.get('end'), limit=lim, proto='assign')
+            c['mut'] = {'how': how, **m}
+            cases.append(c)
+        qonly = [
+            ({}, {'query': {'nth': 2}}), ({'nth': 2}, {'query': {'nth': 7}}), ({'nth': 3}, {'query': {'nth': None}}),
+            ({}, {'query': {'limit': 5}}), ({'limit': 5, 'offset': 0}, {'query': {'offset': 3}}),
+            ({'limit': 5, 'offset': 3}, {'query': {'limit': None, 'offset': None}}),
+            ({}, {'query': {'sample': 1.0}}), ({'sample': 1.0}, {'query': {'sample': None}}),
+        ]  # fmt: skip
+        for (q0, m), how, f0 in itertools.product(qonly, ('sameq', 'sqlfirst'), (None, {'country': c1})):
+            c = _case(db, 'query', dict(f0) if f0 else None, proto='assign', **q0)
+            c['mut'] = {'how': how, **m}
+            cases.append(c)
+        for lim0, lim1 in ((3, 1), (1, 20)):
+            for how in ('sameq', 'sqlfirst'):
+                c = _case(db, 'freq', {'country': c1}, limit=lim0, proto='assign')
+                c['mut'] = {'how': how, 'query': {'limit': lim1}}
+                cases.append(c)
+        add(
+            f'{db}: use, assign a filter/query field, use again (same object / new query sharing the filter / SQL built first)',
+            {'filter assignment': [[f, m] for f, m in fmuts], 'query assignment': [list(x) for x in qmuts] + [list(x) for x in qonly],
+             'how': ['newq', 'sameq', 'sqlfirst'], 'kind': kinds3, 'dates': [[None, None], [fx['I'], fx['I9']]]},
+            cases,
+        )  # fmt: skip
+
         if thorough:
             # T1 spatial x numeric-lite x dates x kind
             nl = [
@@ -701,15 +766,11 @@ def _check_freq(case, routes, r):
     return [V('frequent-routes', prob)] if prob else []
 
 
-def run_case(case):
-    _ensure()
-    tab = _S['tabs'][case['db']]
-    db = _dbs()[case['db']]
+def _expect(tab, case):
+    """Oracle side of one query value: legality, expected answer, resolved offset, invalid parameters."""
     flt = case.get('filter')
     spec = dict(filter=flt, start=case.get('start'), end=case.get('end'), every_nth=case.get('nth') if case['kind'] == 'query' else None)
     legal = flt is None or ref.spatial_legal(flt)
-
-    # expected answer (the offset token needs it)
     E = routes = None
     offset = case.get('offset')
     if legal:
@@ -719,30 +780,34 @@ def run_case(case):
             E = ref.expected_base(tab, spec)
         else:
             routes = ref.expected_routes(tab, spec)
-    if isinstance(offset, str):
+    if isinstance(offset, str):  # 'N-2', 'N', 'N+3': relative to the number of matching instances
         n = len(E) if E is not None else 0
         offset = max(0, n + int(offset[1:] or 0))
-    invalid = _invalid_params(case, offset)
+    return dict(legal=legal, E=E, routes=routes, offset=offset, invalid=_invalid_params(case, offset))
 
-    rec = _execute(case, db, offset)
+
+def _judge(tab, case, exp, rec, db):
+    """Compare the records of executions of ONE query value with its expectation.
+    Returns (outcome, nontrivial, violations, answer fingerprint)."""
+    flt = case.get('filter')
+    E, routes, offset = exp['E'], exp['routes'], exp['offset']
     vio = []
-
-    if not legal:
+    if not exp['legal']:
         accepted = [r for r in rec if 'exc' not in r]
         other = [r for r in rec if 'exc' in r and not isinstance(r['exc'], ValueError)]
         if accepted:
-            vio.append(V('illegal-mix-accepted', f'spatial conditions {sorted(k for k in flt if k in ref.SPATIAL_FIELDS)} were accepted'))
+            vio.append(V('illegal-mix-accepted', f'spatial conditions {sorted(k for k in flt if k in ref.SPATIAL_FIELDS and flt[k] is not None)} were accepted'))
         for r in other:
             vio.append(_classify_exception(case, r))
-        return {'outcome': 'refused:illegal-spatial-mix' if not accepted else 'accepted:illegal-spatial-mix', 'nontrivial': True, 'violations': vio}
+        return ('refused:illegal-spatial-mix' if not accepted else 'accepted:illegal-spatial-mix'), True, vio, None
 
-    if invalid:
+    if exp['invalid']:
         excs = [r for r in rec if 'exc' in r]
         for r in excs:
             if not isinstance(r['exc'], ValueError):
                 vio.append(_classify_exception(case, r))
         oc = 'refused' if len(excs) == len(rec) and rec else 'accepted'
-        return {'outcome': f'{oc}:invalid-{invalid[0]}', 'nontrivial': True, 'violations': vio}
+        return f'{oc}:invalid-{exp["invalid"][0]}', True, vio, None
 
     first_ids = None
     errs = 0
@@ -776,16 +841,129 @@ def run_case(case):
         outcome = f'{case["kind"]}:' + ('empty' if n_exp == 0 else 'one' if n_exp == 1 else 'many')
         if case['kind'] == 'query' and case.get('limit') is not None:
             outcome += ':sliced'
-    # keep one violation per kind per case (the same defect repeats on every step)
+    obs = fingerprint(first_ids[1]) if first_ids is not None else None
+    return outcome, bool(n_exp) or bool(errs), vio, obs
+
+
+def _uniq(vio):
+    """One violation per (kind, finding) per case (the same defect repeats on every step)."""
     seen = set()
-    uniq = []
+    out = []
     for v in vio:
         key = (v['kind'], v.get('finding'))
         if key not in seen:
             seen.add(key)
-            uniq.append(v)
-    obs = fingerprint(first_ids[1]) if first_ids is not None else None
-    return {'outcome': outcome, 'nontrivial': bool(n_exp) or bool(errs), 'violations': uniq, 'obs': obs}
+            out.append(v)
+    return out
+
+
+# ----- assignment histories: the object is used, one of its fields (or a field of its filter) is
+# assigned, and it is used again.  A query is a value: the answer after the assignment must be the
+# answer of a freshly constructed query with the same field values.
+
+
+def _apply_to_spec(case):
+    """The case as a plain value after the assignments (oracle side: dictionaries only)."""
+    mut = case['mut']
+    after = {k: v for k, v in case.items() if k != 'mut'}
+    flt = None if case.get('filter') is None else dict(case['filter'])
+    if mut.get('filter') is not None or mut.get('append') or mut.get('bbox_inplace'):
+        flt = dict(flt or {})
+        for k, v in (mut.get('filter') or {}).items():
+            flt[k] = v
+        for k, v in (mut.get('append') or {}).items():
+            flt[k] = ref.aslist(flt[k]) + [v]
+        for k, v in (mut.get('bbox_inplace') or {}).items():
+            flt[k] = list(v)
+        flt = {k: v for k, v in flt.items() if v is not None}
+    if mut.get('drop_filter'):
+        flt = None
+    after['filter'] = flt
+    for k, v in (mut.get('query') or {}).items():
+        after[k] = v
+    return after
+
+
+def _apply_to_objects(case, q, fobj):
+    """The same assignments on the real objects.  Returns the (possibly new) filter object."""
+    from AEIC.missions import BoundingBox
+
+    mut = case['mut']
+    if mut.get('drop_filter'):
+        q.filter = None
+        return None
+    if fobj is None and (mut.get('filter') is not None):
+        fobj = _make_filter({k: v for k, v in mut['filter'].items() if v is not None})
+        q.filter = fobj
+    else:
+        for k, v in (mut.get('filter') or {}).items():
+            if k.endswith('bounding_box') and v is not None:
+                v = BoundingBox(min_latitude=v[0], max_latitude=v[1], min_longitude=v[2], max_longitude=v[3])
+            setattr(fobj, k, list(v) if isinstance(v, list) else v)
+    for k, v in (mut.get('append') or {}).items():
+        getattr(fobj, k).append(v)
+    for k, v in (mut.get('bbox_inplace') or {}).items():
+        box = getattr(fobj, k)
+        box.min_latitude, box.max_latitude, box.min_longitude, box.max_longitude = v
+    names = dict(start='start_date', end='end_date', nth='every_nth', limit='limit', offset='offset', sample='sample')
+    for k, v in (mut.get('query') or {}).items():
+        setattr(q, names[k], date.fromisoformat(v) if k in ('start', 'end') and v else v)
+    return fobj
+
+
+def _run_assignment_case(case, tab, db):
+    before = {k: v for k, v in case.items() if k != 'mut'}
+    after = _apply_to_spec(case)
+    how = case['mut']['how']
+    recs = {'before': [], 'after': []}
+
+    def use(q, group, step, run=True):
+        try:
+            if run:
+                r = db(q)
+                r = r if isinstance(r, int) else list(r)
+                recs[group].append(dict(step=step, k=1, know=1, nrand=0, res=r))
+            else:
+                q.to_sql()
+        except Exception as e:  # classified by _judge
+            recs[group].append(dict(step=step, k=1, know=1, nrand=0, exc=e))
+
+    fobj = _make_filter(before.get('filter'))
+    q1 = _make_query(before, fobj, before.get('offset'))
+    use(q1, 'before', 'first use', run=(how != 'sqlfirst'))
+    try:
+        fobj = _apply_to_objects(case, q1, fobj)
+    except Exception as e:
+        return {'outcome': 'error:assignment', 'nontrivial': True,
+                'violations': [V(f'unexpected-exception:{type(e).__name__}', f'assigning {case["mut"]} raised {e}')]}  # fmt: skip
+    if how == 'newq':
+        use(_make_query(after, fobj, after.get('offset')), 'after', 'new query object with the assigned-to filter')
+    use(q1, 'after', 'same object after the assignment')
+
+    vio = []
+    outcome = obs = None
+    for group, c in (('before', before), ('after', after)):
+        exp = _expect(tab, c)
+        oc, _, vs, ob = _judge(tab, c, exp, recs[group], db)
+        if group == 'after':
+            outcome, obs = oc, ob
+            what = {k: v for k, v in case['mut'].items() if k != 'how' and v}
+            for v in vs:
+                v['detail'] = (v['detail'] + f' [after assigning {what} to the used object(s); a fresh query with these values is the reference]')[:1500]
+        vio += vs
+    return {'outcome': f'assigned:{outcome}', 'nontrivial': True, 'violations': _uniq(vio), 'obs': obs}
+
+
+def run_case(case):
+    _ensure()
+    tab = _S['tabs'][case['db']]
+    db = _dbs()[case['db']]
+    if case.get('mut'):
+        return _run_assignment_case(case, tab, db)
+    exp = _expect(tab, case)
+    rec = _execute(case, db, exp['offset'])
+    outcome, nontrivial, vio, obs = _judge(tab, case, exp, rec, db)
+    return {'outcome': outcome, 'nontrivial': nontrivial, 'violations': _uniq(vio), 'obs': obs}
 
 
 def observe(case):
